@@ -1,4 +1,4 @@
-(* Model of quanto's numeric core and configuration checks (quantizers, optimizers, group/ungroup, dequantizers, quantize_weight/activation, calibration scale update).
+(* Model of quanto's numeric core and configuration checks (quantizers, optimizers, group/ungroup, dequantizers, quantize_weight/activation, calibration scale update, automatic group size).
    Snapshot of the translator output for the revision of /repo the proofs were written against
    (tools_snapshot.py); Tie proves the current source still translates to a convertible term. *)
 From Coq Require Import String List ZArith Bool.
@@ -23,9 +23,10 @@ Definition group {F : Type} `{Num F} (base : tensor F) (axis : option Z) (group_
   let axis_dim : Z := ix1_ in
   _ <- guard_nz axis_dim ;;
   let axis_numel : Z := ((numel base) / axis_dim) in
-  b2_ <- (if (group_size >? axis_numel) then Ok true else (
-    _ <- guard_nz group_size ;;
-    Ok (negb ((axis_numel mod group_size) =? 0)))) ;;
+  b2_ <- (if (group_size <=? 0) then Ok true else (
+    if (group_size >? axis_numel) then Ok true else (
+      _ <- guard_nz group_size ;;
+      Ok (negb ((axis_numel mod group_size) =? 0))))) ;;
   _ <- guard (negb b2_) "ValueError"%string ;;
   _ <- guard_nz group_size ;;
   let axis_groups : Z := (axis_numel / group_size) in
@@ -287,6 +288,39 @@ Definition absmax_scale {F : Type} `{Num F} (base : tensor F) (qtype : qtype) (a
   )) ;;
   let info : storage := (q_storage qtype) in
   Ok (tf_div_int qranges (st_max info)).
+
+Definition auto_group_size {F : Type} `{Num F} (weight : tensor F) : res (option Z) :=
+  let weight_group_size : option Z := None in
+  ix1_ <- py_index (shape weight) 0 ;;
+  let out_features : Z := ix1_ in
+  _ <- guard_nz out_features ;;
+  let in_features : Z := ((numel weight) / out_features) in
+  let group_size : Z := 128 in
+  '(group_size, weight_group_size) <- (if (in_features >? group_size) then (
+    group_size <- mwhile 8%nat
+      (fun (acc_ : Z) =>
+        let group_size := acc_ in
+        _ <- guard_nz group_size ;;
+        Ok ((negb ((in_features mod group_size) =? 0)) && (group_size >? 32)))
+
+      (fun (acc_ : Z) =>
+        let group_size := acc_ in
+        let group_size : Z := (group_size - 32) in
+        Ok group_size)
+
+      group_size ;;
+    _ <- guard_nz group_size ;;
+    weight_group_size <- (if ((in_features mod group_size) =? 0) then (
+      let weight_group_size : option Z := (Some group_size) in
+      Ok weight_group_size
+    ) else (
+      Ok weight_group_size
+    )) ;;
+    Ok (group_size, weight_group_size)
+  ) else (
+    Ok (group_size, weight_group_size)
+  )) ;;
+  Ok weight_group_size.
 
 Definition updated_scale {F : Type} `{Num F} (scale : tensor F) (new_scale : tensor F) (momentum : b64) : res (tensor F) :=
   if (tf_all_eq_int scale 1) then (
